@@ -543,8 +543,8 @@ from srccall import with_src  # noqa: E402
 # table (PyRt.Env), which Src.envOfCfg builds from the model's configuration record
 PROP = with_src(C15(), share=5, functions=[
                     "_version_nodot", "_py_interpreter_range", "_abi3_applies", "_is_threaded_cpython", "compatible_tags",
-                    "cpython_tags", "_cpython_abis", "_get_config_var"],
-                module="PkgProofs.Props.Src.Tags",
+                    "cpython_tags", "_cpython_abis", "_get_config_var", "Tag.__str__", "Tag.__eq__", "Tag.__hash__"],
+                module=["PkgProofs.Props.Src.Tags", "PkgProofs.Props.Src.TagObj"],
                 theorems=["Src._version_nodot_translated", "Src._version_nodot_eq_model",
                           "Src._py_interpreter_range_translated", "Src._py_interpreter_range_eq_model",
                           "Src._abi3_applies_translated", "Src._abi3_applies_eq_model",
@@ -553,4 +553,7 @@ PROP = with_src(C15(), share=5, functions=[
                           "Src.compatible_tags_translated", "Src.compatible_tags_eq_model",
                           "Src._get_config_var_translated", "Src._get_config_var_eq_model",
                           "Src._cpython_abis_translated", "Src._cpython_abis_eq_model",
-                          "Src.cpython_tags_translated", "Src.cpython_tags_eq_model"])
+                          "Src.cpython_tags_translated", "Src.cpython_tags_eq_model",
+                          "Src.Tag.__str___translated", "Src.Tag.__str___eq_model",
+                          "Src.Tag.__eq___translated", "Src.Tag.__eq___eq_model", "Src.Tag.__eq___other",
+                          "Src.Tag.__hash___translated", "Src.Tag.__hash___eq_model", "Src.Tag.__hash___agrees"])
